@@ -212,7 +212,7 @@ class ReaderRunner(object):
                 built.append(obj)
                 return obj
             nm = P.call_name(node) or ''
-            if nm.startswith('self.') and nm[5:] in self.inline and nm[5:] in self.methods:
+            if self._inlinable(node, env):
                 return self._inline(node, env, built)
         if isinstance(node, ast.Attribute) and isinstance(node.value, ast.Name) and node.value.id in env.mod.imports \
                 and env.mod.imports[node.value.id][1] is None:
@@ -223,6 +223,17 @@ class ReaderRunner(object):
             return ev(node, env)
         except Unknown:
             return Opaque('expr:%s' % P.src(node))
+
+    def _inlinable(self, c, env):
+        """a helper of the reader class that is handed the very element being read (same XML node): part of reading this element"""
+        nm = P.call_name(c) or ''
+        if not (nm.startswith('self.') and nm[5:] in self.methods):
+            return False
+        if nm[5:] in self.inline:
+            return True
+        if env.locals.get('__depth__', 0) >= 3:
+            return False
+        return any(isinstance(a, ast.Name) and a.id in env.attrib_vars for a in c.args)
 
     def _inline(self, c, env, built):
         callee = self.methods[P.call_name(c)[5:]]
@@ -237,6 +248,7 @@ class ReaderRunner(object):
                 loc[p] = Opaque('element')
             else:
                 loc[p] = self._eval(a, env, built)
+        loc['__depth__'] = env.locals.get('__depth__', 0) + 1
         e2 = Env(self.py, env.mod, env.atoms, env.attrib, loc, nvars)
         self._block(callee.body, e2, built)
         return e2.locals.get('__return__')
@@ -308,8 +320,7 @@ class ReaderRunner(object):
             return
         if isinstance(st, ast.Expr) and isinstance(st.value, ast.Call):
             c = st.value
-            nm = P.call_name(c) or ''
-            if nm.startswith('self.') and nm[5:] in self.inline and nm[5:] in self.methods:
+            if self._inlinable(c, env):
                 self._inline(c, env, built)
             return
         if isinstance(st, ast.Return):
